@@ -202,3 +202,129 @@ class SaDb:
 
 def expected_ids(index, sat):
     return sorted(index[_canon(v)] for v in sat)
+
+
+# ---------------------------------------------------------------------------------------------- relational fixture
+def _col(v, flavour="orm"):
+    return pyval(v, flavour)
+
+
+class RelDjango:
+    """Org <- Author <- Post <-> Author (editors), Post <- Comment, loaded from the spec's database instance."""
+
+    def __init__(self):
+        django_setup()
+        from djapp import models
+        self.m = models
+
+    def load(self, db):
+        m = self.m
+        for model in (m.Comment, m.Post, m.Author, m.Org):
+            model.objects.all().delete()
+        m.Post.authors.through.objects.all().delete()
+        m.Org.objects.bulk_create([m.Org(id=r["id"], name=_col(r["name"]), k=_col(r["k"])) for r in db["Org"]])
+        m.Author.objects.bulk_create([m.Author(id=r["id"], name=_col(r["name"]), age=_col(r["age"]), rank=_col(r["rank"]),
+                                               org_id=_col(r["org"])) for r in db["Author"]])
+        m.Post.objects.bulk_create([m.Post(id=r["id"], title=_col(r["title"]), n=_col(r["n"]), author_id=_col(r["author"]))
+                                    for r in db["Post"]])
+        m.Comment.objects.bulk_create([m.Comment(id=r["id"], text=_col(r["text"]), k=_col(r["k"]), post_id=_col(r["post"]))
+                                       for r in db["Comment"]])
+        thr = m.Post.authors.through
+        thr.objects.bulk_create([thr(post_id=p, author_id=a) for p, a in db["editors"]])
+
+    def select(self, root, text, base=None):
+        from odata_query.django import apply_odata_query
+        model = getattr(self.m, root)
+        qs = apply_odata_query(model.objects.all() if base is None else base(model), text)
+        return sorted(set(qs.values_list("id", flat=True))), str(qs.query)
+
+
+class RelSa:
+    def __init__(self):
+        import sqlalchemy as sa
+        from sqlalchemy import event
+        from sqlalchemy.orm import Session, declarative_base, relationship
+        self.sa = sa
+        Base = declarative_base()
+        post_editors = sa.Table("post_editors", Base.metadata,
+                                sa.Column("post_id", sa.Integer, sa.ForeignKey("post.id")),
+                                sa.Column("author_id", sa.Integer, sa.ForeignKey("author.id")))
+
+        class Org(Base):
+            __tablename__ = "org"
+            id = sa.Column(sa.Integer, primary_key=True)
+            name = sa.Column(sa.String)
+            k = sa.Column(sa.Integer)
+            authors = relationship("Author", back_populates="org")
+
+        class Author(Base):
+            __tablename__ = "author"
+            id = sa.Column(sa.Integer, primary_key=True)
+            name = sa.Column(sa.String)
+            age = sa.Column(sa.Integer)
+            rank = sa.Column(sa.Integer, nullable=False)
+            org_id = sa.Column(sa.Integer, sa.ForeignKey("org.id"))
+            org = relationship("Org", back_populates="authors")
+            posts = relationship("Post", back_populates="author")
+            edited = relationship("Post", secondary=post_editors, back_populates="authors")
+
+        class Post(Base):
+            __tablename__ = "post"
+            id = sa.Column(sa.Integer, primary_key=True)
+            title = sa.Column(sa.String)
+            n = sa.Column(sa.Integer)
+            author_id = sa.Column(sa.Integer, sa.ForeignKey("author.id"))
+            author = relationship("Author", back_populates="posts")
+            authors = relationship("Author", secondary=post_editors, back_populates="edited")
+            comments = relationship("Comment", back_populates="post")
+
+        class Comment(Base):
+            __tablename__ = "comment"
+            id = sa.Column(sa.Integer, primary_key=True)
+            text = sa.Column(sa.String)
+            k = sa.Column(sa.Integer, nullable=False)
+            post_id = sa.Column(sa.Integer, sa.ForeignKey("post.id"))
+            post = relationship("Post", back_populates="comments")
+
+        self.models = {"Org": Org, "Author": Author, "Post": Post, "Comment": Comment}
+        self.post_editors = post_editors
+        self.Base = Base
+        self.engine = sa.create_engine("sqlite://")
+
+        @event.listens_for(self.engine, "connect")
+        def _udfs(dbapi, rec):
+            dbapi.create_function("strpos", 2, lambda a, b: None if a is None or b is None else a.find(b) + 1)
+            dbapi.create_function("char_length", 1, lambda a: None if a is None else len(a))
+            dbapi.create_function("concat", -1, lambda *a: None if any(x is None for x in a) else "".join(str(x) for x in a))
+
+        Base.metadata.create_all(self.engine)
+        self.session = Session(self.engine)
+
+    def load(self, db):
+        sa, M, s = self.sa, self.models, self.session
+        s.execute(sa.delete(self.post_editors))
+        for name in ("Comment", "Post", "Author", "Org"):
+            s.execute(sa.delete(M[name].__table__))
+        s.execute(sa.insert(M["Org"].__table__), [dict(id=r["id"], name=_col(r["name"]), k=_col(r["k"])) for r in db["Org"]])
+        s.execute(sa.insert(M["Author"].__table__), [dict(id=r["id"], name=_col(r["name"]), age=_col(r["age"]), rank=_col(r["rank"]),
+                                                          org_id=_col(r["org"])) for r in db["Author"]])
+        s.execute(sa.insert(M["Post"].__table__), [dict(id=r["id"], title=_col(r["title"]), n=_col(r["n"]), author_id=_col(r["author"]))
+                                                        for r in db["Post"]])
+        s.execute(sa.insert(M["Comment"].__table__), [dict(id=r["id"], text=_col(r["text"]), k=_col(r["k"]), post_id=_col(r["post"]))
+                                                           for r in db["Comment"]])
+        if db["editors"]:
+            s.execute(sa.insert(self.post_editors), [dict(post_id=p, author_id=a) for p, a in db["editors"]])
+        s.commit()
+
+    def select(self, root, text, style="orm", base=None):
+        from odata_query.sqlalchemy import apply_odata_query
+        sa = self.sa
+        model = self.models[root]
+        if style == "orm":
+            q = sa.select(model) if base is None else base(model, "orm", self)
+            st = apply_odata_query(q, text)
+            ids = sorted({o.id for o in self.session.execute(st).scalars().unique()})
+            return ids, str(st.compile(self.engine))
+        q = self.session.query(model) if base is None else base(model, "legacy", self)
+        st = apply_odata_query(q, text)
+        return sorted({o.id for o in st.all()}), str(st.statement.compile(self.engine))
